@@ -35,7 +35,7 @@ TEXT.update({
   "technique": "symbolic execution of the rustc MIR of InMemDicomObject::apply_leaf and the functions it calls over a finite map with symbolic tags; z3 decides every path against a reference model of the documented semantics; replay on a real object",
   "level": "For objects of 1-2 (thorough 0-2) elements with symbolic, possibly coinciding tags, a symbolic addressed tag and symbolic new value / text / VR: after Remove, Empty, SetVr, Set, SetStr, SetIfMissing, Replace "
            "(thorough also SetStrIfMissing, ReplaceStr) the object holds exactly the attributes the documented semantics give - the addressed one changed (or created only where the action says so, with the dictionary's VR), all others untouched. "
-           "One nested step: whether the operation succeeds, whether a missing sequence / the next item is created (constructive actions only) and that a failing non-constructive action leaves the object unchanged follow the documented rules.",
+           "One nested step: whether the operation succeeds, whether a missing sequence / the next item is created (constructive actions only) and that a failing non-constructive action leaves the object unchanged follow the documented rules; an item index past the next item is an error that leaves the number of items as it was (constructive actions included).",
   "note": "leaf actions and one nested selector step: deeper selectors, push / truncate actions, the file meta table's ApplyOp and writing the resulting objects are not encoded; BTreeMap is a finite map with symbolic keys, the dictionary a contract answering any VR",
  },
  "C15": {
@@ -54,10 +54,10 @@ TEXT.update({
  },
  "C34": {
   "engine": "M",
-  "technique": "symbolic execution of the rustc MIR of the data set writer, the PDU writer and the PDU receiver over a sink / transport contract whose k-th call fails, k chosen by the solver; replay over real failing writers / readers",
+  "technique": "symbolic execution of the rustc MIR of the data set writer, the PDU writer and the PDU receiver over a sink / transport contract whose k-th call fails, k chosen by the solver, and of FileDicomObject::write_dataset_impl over a buffered-sink contract (with_ts / write_sequence / flush answer Ok or Err as the solver chooses); replay over real failing writers / readers",
   "level": "For a token stream through DataSetWriter::write (sequence, elements, encapsulated pixel data with an odd fragment; both strategies; quick: Explicit VR LE, thorough: 3 codecs), for write_pdu on an A-ASSOCIATE-RQ with user "
-           "sub-items and for read_pdu_from_wire over up to 3 reads: whichever call of the underlying writer / transport fails, the operation that made the call returns Err (never Ok), and no panic call is reachable.",
-  "note": "writers and the synchronous receiver only: files (meta group, deflate adapter flushing), the P-DATA writer's finish-on-drop, partial writes and the asynchronous paths are outside; the data set writer is also run with the failing call being a zero-length write",
+           "sub-items and for read_pdu_from_wire over up to 3 reads: whichever call of the underlying writer / transport fails, the operation that made the call returns Err (never Ok), and no panic call is reachable. File level: for each codec kind of the transfer syntax (none, encapsulated pixel data, data set adapter) write_dataset_impl answers Ok only after a successful flush has followed the written data set, and returns every Err of with_ts / write_sequence / flush.",
+  "note": "writers, the synchronous receiver and the file-level data set writer's flush discipline only: the file meta group, the inside of the deflate adapter, the P-DATA writer's finish-on-drop, partial writes and the asynchronous paths are outside; the data set writer is also run with the failing call being a zero-length write",
  },
  "C36": {
   "engine": "M",
@@ -201,8 +201,8 @@ TEXT.update({
 TEXT.update({
  "C31": {
   "engine": "M",
-  "technique": "symbolic execution of the MIR of InMemDicomObject::command_from_iter_with_dict (+closure, even_len) over abstract elements with symbolic tags and value lengths; BTreeMap as a finite map with symbolic keys; z3",
-  "level": "For 2-3 elements with symbolic tags (which may coincide, in or outside group 0000) and symbolic value lengths the solver shows on every path that the recorded Command Group Length equals 8 + even(length) summed over the OTHER "
+  "technique": "symbolic execution of the MIR of InMemDicomObject::command_from_iter_with_dict (+closure, even_len) over abstract elements with symbolic tags, value lengths and independently symbolic declared header lengths; BTreeMap as a finite map with symbolic keys; z3",
+  "level": "For 2-3 elements with symbolic tags (which may coincide, in or outside group 0000) and symbolic value lengths (the length declared in each element's header is a separate, unconstrained symbol, as DataElement::new_with_len allows) the solver shows on every path that the recorded Command Group Length equals 8 + even(length) summed over the OTHER "
            "command elements that remain in the set.",
   "note": "that calculate_byte_len equals the bytes the encoder writes per VR is not part of this check; counterexamples are replayed by writing the real command set in Implicit VR LE and counting bytes",
  },
